@@ -41,6 +41,22 @@ def tagged_newtype_programs(ctx):
                     for iv in g.all_variant_values(v["fields"][0]["ty"], imap):
                         extra.append({"k": "variant", "i": vi_, "vs": [iv]})
             pr["values"] = pr["values"] + extra
+        # container-level `optional_fields`: Option fields become optional, an Option BEHIND a wrapper must not (serde writes `null` for it)
+        W = lambda w, t: {"k": "wrap", "w": w, "t": t}
+        ofs = []
+        for mode in ("optional", "nullable"):
+            of = {"kind": "struct", "name": f"X{i}OF{mode[0]}", "shape": "named", "attrs": {"optional_fields": mode}, "generics": [],
+                  "fields": [{"name": "a", "ty": OPT(P("u8")), "attrs": {"skip_ser_if_none": True, "default": True}},
+                             {"name": "parent", "ty": W("box", OPT(P("u32"))), "attrs": {}},
+                             {"name": "guarded", "ty": W("mutex", OPT(P("String"))), "attrs": {}},
+                             {"name": "shared", "ty": W("arc", OPT(N(L["name"]))), "attrs": {}},
+                             {"name": "plain", "ty": P("bool"), "attrs": {}}]}
+            items.append(of)
+            ofs.append(of)
+        imap = {x["name"]: x for x in items}
+        for of in ofs:
+            nones = {"k": "struct", "vs": [{"k": "none"}, {"k": "none"}, {"k": "none"}, {"k": "none"}, {"k": "bool", "b": True}]}
+            probes.append({"ty": N(of["name"]), "values": [nones] + g.all_variant_values(N(of["name"]), imap)})
         progs.append({"items": items, "probes": probes + inner_probes})
     return progs
 
